@@ -103,9 +103,34 @@ func (g *GlobalTransactionManager) Commit(ctx context.Context, gtr *GlobalTransa
 		return lastErr
 	}
 
+	resp := res.(message.GlobalCommitResponse)
+	gtr.TxStatus = resp.GlobalStatus
+	if refusal := commitRefusal(resp); refusal != nil {
+		log.Warnf("global commit not acknowledged, xid %s, error %v", gtr.Xid, refusal)
+		return refusal
+	}
 	log.Infof("send global commit request success, xid %s", gtr.Xid)
-	gtr.TxStatus = res.(message.GlobalCommitResponse).GlobalStatus
 
+	return nil
+}
+
+// commitRefusal tells whether the coordinator's reply to a global commit is something else than an
+// acknowledgement: the reply says the transaction is being or has been rolled back (it timed out, say), or
+// its result code is Failed and its status does not say that the commit has been decided all the same.
+func commitRefusal(resp message.GlobalCommitResponse) error {
+	switch resp.GlobalStatus {
+	case message.GlobalStatusRollbacking, message.GlobalStatusRollbackRetrying, message.GlobalStatusRollbacked,
+		message.GlobalStatusRollbackFailed, message.GlobalStatusTimeoutRollbacking,
+		message.GlobalStatusTimeoutRollbackRetrying, message.GlobalStatusTimeoutRollbacked,
+		message.GlobalStatusTimeoutRollbackFailed:
+		return fmt.Errorf("global commit answered with rollback status %d: %s", resp.GlobalStatus, resp.Msg)
+	case message.GlobalStatusCommitting, message.GlobalStatusCommitRetrying, message.GlobalStatusAsyncCommitting,
+		message.GlobalStatusCommitted:
+		return nil
+	}
+	if resp.ResultCode == message.ResultCodeFailed {
+		return fmt.Errorf("global commit refused by the coordinator, status %d: %s", resp.GlobalStatus, resp.Msg)
+	}
 	return nil
 }
 
